@@ -2,9 +2,9 @@
 use crate::core::f64_to_bits;
 use crate::rng::Rng;
 
-pub const CLASSES: [&str; 15] = [
+pub const CLASSES: [&str; 16] = [
     "uniform", "lattice", "allequal", "twovalued", "duppoints", "euclid", "geomline", "blobs", "sorted",
-    "revsorted", "magnitude", "negmixed", "colmajor", "linewalk", "shrinkline",
+    "revsorted", "magnitude", "negmixed", "colmajor", "linewalk", "shrinkline", "ulpties",
 ];
 
 /// Points on a line with strictly growing gaps, observation 0 leftmost, the others numbered so that a
@@ -135,6 +135,33 @@ pub fn matrix(rng: &mut Rng, class: &str, n: usize) -> Vec<f64> {
                 _ => {}
             }
             euclid(&pts)
+        }
+        "ulpties" => {
+            // near-ties within a few units in the last place: groups with tiny internal distances
+            // (clusters of several sizes form first), every cross-group entry = v + k ulp, |k| <= 3,
+            // v with a large mantissa.  This is the structure on which rounding of the average update
+            // broke reducibility (corpus/C01.ops); kept as a family so that neighbours of that input
+            // are explored on every run.
+            let g = 2 + rng.below(4) as usize;
+            let flat = rng.below(4) == 0;
+            let grp: Vec<usize> = (0..n).map(|i| if flat { i } else { rng.below(g as u64) as usize }).collect();
+            let w32ulp = rng.below(3) != 0;
+            let v0 = if rng.below(2) == 0 { 1.0 + rng.unit() } else { 1.999 + rng.unit() * 1e-3 };
+            let v = if w32ulp { v0 as f32 as f64 } else { v0 };
+            let ulp = if w32ulp { f32::EPSILON as f64 } else { f64::EPSILON };
+            let spread = 1 + rng.below(3) as i64;
+            let mut out = Vec::with_capacity(len);
+            for i in 0..n {
+                for j in i + 1..n {
+                    if grp[i] == grp[j] {
+                        out.push(0.001 * (1.0 + rng.below(1000) as f64 * 0.001));
+                    } else {
+                        let k = if rng.below(3) == 0 { rng.below((2 * spread + 1) as u64) as i64 - spread } else { 0 };
+                        out.push(v + k as f64 * ulp);
+                    }
+                }
+            }
+            out
         }
         "blobs" => {
             let k = rng.range(1, 4);
